@@ -2568,7 +2568,13 @@ _inject_task1(EV_P_ echs_task_t t, uid_t u)
 	uc = compl_uid(u);
 
 	/* big checking */
-	if (uc.u == NOT_A_UID && oc.u == NOT_A_UID) {
+	if (u != NOT_A_UID && uc.u == NOT_A_UID) {
+		/* a peer we know nothing about isn't the same as no peer,
+		 * don't believe a word about the owner then */
+		ECHS_ERR_LOG("\
+ignoring task update from unknown user %u", u);
+		return -1;
+	} else if (uc.u == NOT_A_UID && oc.u == NOT_A_UID) {
 		/* can't have both unset, bugger off */
 		ECHS_ERR_LOG("\
 ignoring task update with no user nor owner specified");
